@@ -1,14 +1,31 @@
 (* RefConfluence.v — the denotation of RefDen.v describes EVERY schedule, up to interleaving.
    [sync_den] covers the one schedule in which every service completes from inside its own
    notification.  Here: for an oracle that does not depend on the query counter
-   ([counter_free orc], e.g. [corc rho := fun _ v => rho v]), for ANY choice of immediate completions [imm] and ANY
-   script of API calls (completions in any order, junk, duplicates, registrations, observers),
-   the events issued over the whole history are a permutation of
+   ([counter_free orc], e.g. [corc rho := fun _ v => rho v], or [orc_of [x]]), for ANY choice
+   of immediate completions [imm] and ANY script of API calls (completions in any order, junk,
+   duplicates, repeated start(), registrations, observers), the events issued over the whole
+   history of an order that completed are a permutation of
        production task started, den_block of its body, production task finished.
-   The proof goes through a "residual denotation" [RS]/[RB]/[RL]: the events still to come
-   from a partially executed statement, read off the program tree and the state tree.
-   Invariant: what a start / a delivery emits now, plus the residual afterwards, is (a
-   permutation of) the denotation / the residual before.  Proof file. *)
+   Contents:
+    0  fuel monotonicity of [den_*]; [LogD]: the erased events a computation appended to the log;
+       [trace_devs]: the erased events of a history (function 0's notifications + queries)
+    1  counter-free oracle: guards / limits evaluate the same whenever evaluated
+    2  the denotation as predicates [DS]/[DB]/[DL]/[DLoop] (some fuel, every counter), with
+       constructor and inversion lemmas; [den_const]: [den_*] does not depend on the counter
+    3  the residual denotation [RS]/[RB]/[RL] (relation on program tree x state tree) and its
+       executable form [rest_stmt]/[rest_block]/[rest_list] with [rest_sound]
+    4  [start_conf]:   emitted by a start ++ residual of the new state  ~  denotation
+    5  [deliver_conf]: emitted by a delivery ++ residual afterwards     ~  residual before
+    5b [start_fwd]/[deliver_fwd]: the residual exists whenever the denotation does
+    6  [api_conf]/[script_conf]/[script_conf_gen]: the same for one API call / a script
+    7  theorems [confluence], [confluence_any_fuel], [confluence_last], counting corollaries,
+       [confluence_prefix] (histories that are not complete) and [confluence_prefix_count]
+    8  C05: literal counting loop under every schedule (exactly N / never more than N)
+    9  non-vacuity example (vm_compute)        10  the oracle hypothesis is needed (example)
+    11 run cases of the harness                12  [dev_eq_dec] and the count_occ form
+    13 a top-level while loop with a true guard: the order never completes
+   (~ is Permutation: branches of a Parallel / instances of a parallel loop interleave.)
+   Proof file. *)
 From PFDL Require Import RefSem RunCase Monitors RefBase RefClosure RefShape RefDen RefC08 RefProgress RefC01.
 From Coq Require Import Lia Permutation.
 
@@ -24,14 +41,6 @@ Proof. intros rho q q' v. reflexivity. Qed.
 (* ================================================================================== *)
 (* 0. generalities: fuel monotonicity of the denotation, permutation bookkeeping       *)
 (* ================================================================================== *)
-
-Ltac rb_destruct H :=
-  repeat match type of H with
-         | rbind ?x _ = Ok _ =>
-           let E := fresh "E" in
-           destruct x as [[? ?]| | |] eqn:E; cbn [rbind] in H; [|discriminate H ..]
-         | (let '(_, _) := ?p in _) = Ok _ => destruct p
-         end.
 
 Section Mono.
   Variable orc : oracle.
@@ -525,6 +534,101 @@ Section Const.
   Lemma DLoop_of_den : forall F ie s k q D q', den_loop orc F ie s k q = Ok (D, q') -> DLoop ie s k D.
   Proof. intros F ie s k q D q' H. exists F. exact (proj2 (proj2 (proj2 (den_const F))) _ _ _ _ _ _ H). Qed.
 
+  (* ---- inversion of the denotation predicates ---- *)
+  Lemma DB_inv : forall ie ss i s D,
+      nth_error ss i = Some s -> DB ie ss i D ->
+      exists D1 D2, DS ie s D1 /\ DB ie ss (S i) D2 /\ D = D1 ++ D2.
+  Proof.
+    intros ie ss i s D N (F & H). destruct (H 0) as (q' & E).
+    destruct F as [|F]; [discriminate|]. rewrite den_block_S, N in E.
+    destruct (den_stmt orc F ie s 0) as [[e1 q1]| | |] eqn:E1; cbn [rbind] in E; try discriminate.
+    destruct (den_block orc F ie ss (S i) q1) as [[e2 q2]| | |] eqn:E2; cbn [rbind] in E; try discriminate.
+    inv E. exists e1, e2. split; [eapply DS_of_den; exact E1|]. split; [eapply DB_of_den; exact E2|reflexivity].
+  Qed.
+
+  Lemma DL_inv : forall ie b r D,
+      DL ((ie, b) :: r) D -> exists D1 D2, DS ie b D1 /\ DL r D2 /\ D = D1 ++ D2.
+  Proof.
+    intros ie b r D (F & H). destruct (H 0) as (q' & E).
+    destruct F as [|F]; [discriminate|]. rewrite den_list_S in E.
+    destruct (den_stmt orc F ie b 0) as [[e1 q1]| | |] eqn:E1; cbn [rbind] in E; try discriminate.
+    destruct (den_list orc F r q1) as [[e2 q2]| | |] eqn:E2; cbn [rbind] in E; try discriminate.
+    inv E. exists e1, e2. split; [eapply DS_of_den; exact E1|]. split; [eapply DL_of_den; exact E2|reflexivity].
+  Qed.
+
+  Lemma DS_call_inv : forall ie t a ins body D,
+      DS ie (XCall t a ins body) D ->
+      exists Db, DB [] body 0 Db /\
+                 D = DN TS t a (subst_params ie ins) :: Db ++ [DN TF t a (subst_params ie ins)].
+  Proof.
+    intros ie t a ins body D (F & H). destruct (H 0) as (q' & E).
+    destruct F as [|F]; [discriminate|]. rewrite den_stmt_S in E.
+    destruct (den_block orc F [] body 0 0) as [[e1 q1]| | |] eqn:E1; cbn [rbind] in E; try discriminate.
+    inv E. exists e1. split; [eapply DB_of_den; exact E1|reflexivity].
+  Qed.
+
+  Lemma DS_par_inv : forall ie bs D, DS ie (XParallel bs) D -> DL (map (fun b => (ie, b)) bs) D.
+  Proof.
+    intros ie bs D (F & H). destruct (H 0) as (q' & E).
+    destruct F as [|F]; [discriminate|]. rewrite den_stmt_S in E. eapply DL_of_den; exact E.
+  Qed.
+
+  Lemma DS_cond_inv : forall ie e p fl D b,
+      DS ie (XCond e p fl) D -> cdecide e b ->
+      exists Db, DB ie (if b then p else fl) 0 Db /\ D = map DQ (expr_vars e) ++ Db.
+  Proof.
+    intros ie e p fl D b (F & H) C. destruct (H 0) as (q' & E). destruct (C 0) as (q1 & E0).
+    destruct F as [|F]; [discriminate|]. rewrite den_stmt_S, E0 in E. cbn [rbind] in E.
+    destruct (den_block orc F ie (if b then p else fl) 0 q1) as [[e1 q2]| | |] eqn:E1; cbn [rbind] in E; try discriminate.
+    inv E. exists e1. split; [eapply DB_of_den; exact E1|reflexivity].
+  Qed.
+
+  Lemma DS_while_inv : forall ie e b D, DS ie (XWhile e b) D -> DLoop ie (XWhile e b) 0 D.
+  Proof.
+    intros ie e b D (F & H). destruct (H 0) as (q' & E).
+    destruct F as [|F]; [discriminate|]. rewrite den_stmt_S in E. eapply DLoop_of_den; exact E.
+  Qed.
+
+  Lemma DS_count_inv : forall ie v lim b D, DS ie (XCount v lim b) D -> DLoop ie (XCount v lim b) 0 D.
+  Proof.
+    intros ie v lim b D (F & H). destruct (H 0) as (q' & E).
+    destruct F as [|F]; [discriminate|]. rewrite den_stmt_S in E. eapply DLoop_of_den; exact E.
+  Qed.
+
+  Lemma DS_parloop_inv : forall ie v lim c D n d,
+      DS ie (XParLoop v lim c) D -> climit lim n d ->
+      exists Dl, DL (insts ie v c (Z.to_nat n)) Dl /\ D = d ++ Dl.
+  Proof.
+    intros ie v lim c D n d (F & H) C. destruct (H 0) as (q' & E). destruct (C 0) as (q1 & E0).
+    destruct F as [|F]; [discriminate|]. rewrite den_stmt_S, E0 in E. cbn [rbind] in E.
+    destruct (den_list orc F (insts ie v c (Z.to_nat n)) q1) as [[e1 q2]| | |] eqn:E1; cbn [rbind] in E; try discriminate.
+    inv E. exists e1. split; [eapply DL_of_den; exact E1|reflexivity].
+  Qed.
+
+  Lemma DLoop_while_inv : forall ie e body k D,
+      DLoop ie (XWhile e body) k D -> cdecide e true ->
+      exists D1 D2, DB ie body 0 D1 /\ DLoop ie (XWhile e body) (S k) D2 /\
+                    D = map DQ (expr_vars e) ++ D1 ++ D2.
+  Proof.
+    intros ie e body k D (F & H) C. destruct (H 0) as (q' & E). destruct (C 0) as (q1 & E0).
+    destruct F as [|F]; [discriminate|]. rewrite den_loop_S, E0 in E. cbn [rbind] in E.
+    destruct (den_block orc F ie body 0 q1) as [[e1 q2]| | |] eqn:E1; cbn [rbind] in E; try discriminate.
+    destruct (den_loop orc F ie (XWhile e body) (S k) q2) as [[e2 q3]| | |] eqn:E2; cbn [rbind] in E; try discriminate.
+    inv E. exists e1, e2. split; [eapply DB_of_den; exact E1|]. split; [eapply DLoop_of_den; exact E2|reflexivity].
+  Qed.
+
+  Lemma DLoop_count_inv : forall ie v lim body k D n d,
+      DLoop ie (XCount v lim body) k D -> climit lim n d -> (Z.of_nat k <? n)%Z = true ->
+      exists D1 D2, DB ((v, k) :: ie) body 0 D1 /\ DLoop ie (XCount v lim body) (S k) D2 /\
+                    D = d ++ D1 ++ D2.
+  Proof.
+    intros ie v lim body k D n d (F & H) C Hk. destruct (H 0) as (q' & E). destruct (C 0) as (q1 & E0).
+    destruct F as [|F]; [discriminate|]. rewrite den_loop_S, E0 in E. cbn [rbind] in E. rewrite Hk in E.
+    destruct (den_block orc F ((v, k) :: ie) body 0 q1) as [[e1 q2]| | |] eqn:E1; cbn [rbind] in E; try discriminate.
+    destruct (den_loop orc F ie (XCount v lim body) (S k) q2) as [[e2 q3]| | |] eqn:E2; cbn [rbind] in E; try discriminate.
+    inv E. exists e1, e2. split; [eapply DB_of_den; exact E1|]. split; [eapply DLoop_of_den; exact E2|reflexivity].
+  Qed.
+
   (* ================================================================================ *)
   (* 3. the residual denotation: the events still to come from a state                 *)
   (* ================================================================================ *)
@@ -570,6 +674,88 @@ Section Const.
 
   Lemma is_done_RDone : forall st, is_done st = true -> st = RDone.
   Proof. destruct st; cbn; intros; try discriminate; reflexivity. Qed.
+
+  (* ---- the residual denotation as a function (same fuel discipline as [den_*]) ---- *)
+  Fixpoint rest_stmt (f : nat) (ie : ienv) (s : xstmt) (st : rst) {struct f} : res (list dev) :=
+    match f with
+    | O => Fuel
+    | S f' =>
+      match s, st with
+      | _, RDone => Ok []
+      | XService n a ins, RAwait _ => Ok [DN SF n a (subst_params ie ins)]
+      | XCall t a ins body, RCall _ i sti =>
+        rbind (rest_block f' [] body i sti) (fun R => Ok (R ++ [DN TF t a (subst_params ie ins)]))
+      | XParallel bs, RPar sts => rest_list f' (map (fun b => (ie, b)) bs) sts
+      | XCond e p fl, RCond b i sti => rest_block f' ie (if b then p else fl) i sti
+      | XWhile e body, RLoop k i sti =>
+        rbind (rest_block f' ie body i sti) (fun R =>
+        rbind (den_loop orc f' ie s (S k) 0) (fun '(D, _) => Ok (R ++ D)))
+      | XCount v lim body, RLoop k i sti =>
+        rbind (rest_block f' ((v, k) :: ie) body i sti) (fun R =>
+        rbind (den_loop orc f' ie s (S k) 0) (fun '(D, _) => Ok (R ++ D)))
+      | XParLoop v lim c, RParLoop sts => rest_list f' (insts ie v c (List.length sts)) sts
+      | _, _ => Unsupported
+      end
+    end
+  with rest_block (f : nat) (ie : ienv) (ss : list xstmt) (i : nat) (st : rst) {struct f} : res (list dev) :=
+    match f with
+    | O => Fuel
+    | S f' =>
+      match nth_error ss i with
+      | None => Unsupported
+      | Some s =>
+        rbind (rest_stmt f' ie s st) (fun R =>
+        rbind (den_block orc f' ie ss (S i) 0) (fun '(D, _) => Ok (R ++ D)))
+      end
+    end
+  with rest_list (f : nat) (l : list (ienv * xstmt)) (sts : list rst) {struct f} : res (list dev) :=
+    match f with
+    | O => Fuel
+    | S f' =>
+      match l, sts with
+      | [], [] => Ok []
+      | (ie, b) :: r, st :: sr =>
+        rbind (rest_stmt f' ie b st) (fun R1 =>
+        rbind (rest_list f' r sr) (fun R2 => Ok (R1 ++ R2)))
+      | _, _ => Unsupported
+      end
+    end.
+
+  Lemma rest_sound : forall f,
+      (forall ie s st R, rest_stmt f ie s st = Ok R -> RS ie s st R) /\
+      (forall ie ss i st R, rest_block f ie ss i st = Ok R -> RB ie ss i st R) /\
+      (forall l sts R, rest_list f l sts = Ok R -> RL l sts R).
+  Proof.
+    induction f as [|f IH]; [split; [|split]; intros; discriminate|].
+    destruct IH as (IHs & IHb & IHl).
+    split; [|split].
+    - intros ie s st R H. cbn [rest_stmt] in H.
+      destruct s as [n at_ ins|t at_ ins body|bs|e p fl|e b|v lim b|v lim c];
+        destruct st as [|id'|cid i sti|sts|bb i sti|k i sti|sts]; try discriminate;
+          try solve [inv H; constructor].
+      + destruct (rest_block f [] body i sti) as [Rb| | |] eqn:E; cbn [rbind] in H; try discriminate.
+        inv H. constructor. apply IHb. exact E.
+      + constructor. apply IHl. exact H.
+      + constructor. apply IHb. exact H.
+      + destruct (rest_block f ie b i sti) as [Rb| | |] eqn:E; cbn [rbind] in H; try discriminate.
+        destruct (den_loop orc f ie (XWhile e b) (S k) 0) as [[D q']| | |] eqn:E2; cbn [rbind] in H; try discriminate.
+        inv H. constructor; [apply IHb; exact E|eapply DLoop_of_den; exact E2].
+      + destruct (rest_block f ((v, k) :: ie) b i sti) as [Rb| | |] eqn:E; cbn [rbind] in H; try discriminate.
+        destruct (den_loop orc f ie (XCount v lim b) (S k) 0) as [[D q']| | |] eqn:E2; cbn [rbind] in H; try discriminate.
+        inv H. constructor; [apply IHb; exact E|eapply DLoop_of_den; exact E2].
+      + constructor. apply IHl. exact H.
+    - intros ie ss i st R H. cbn [rest_block] in H.
+      destruct (nth_error ss i) as [s|] eqn:N; [|discriminate].
+      destruct (rest_stmt f ie s st) as [R1| | |] eqn:E; cbn [rbind] in H; try discriminate.
+      destruct (den_block orc f ie ss (S i) 0) as [[D q']| | |] eqn:E2; cbn [rbind] in H; try discriminate.
+      inv H. econstructor; [exact N|apply IHs; exact E|eapply DB_of_den; exact E2].
+    - intros l sts R H. cbn [rest_list] in H.
+      destruct l as [|[ie b] r]; destruct sts as [|st sr]; try discriminate.
+      + inv H. constructor.
+      + destruct (rest_stmt f ie b st) as [R1| | |] eqn:E; cbn [rbind] in H; try discriminate.
+        destruct (rest_list f r sr) as [R2| | |] eqn:E2; cbn [rbind] in H; try discriminate.
+        inv H. constructor; [apply IHs; exact E|apply IHl; exact E2].
+  Qed.
 
   Section Run.
   Variable imm : nat -> bool.
@@ -916,6 +1102,162 @@ Section Const.
   Qed.
 
   (* ================================================================================ *)
+  (* 5b. the residual exists whenever the denotation does (so the invariants above     *)
+  (*     also speak about histories that are not complete yet)                         *)
+  (* ================================================================================ *)
+  Lemma RL_len : forall l sts R, RL l sts R -> List.length l = List.length sts.
+  Proof. intros l sts R H. induction H; cbn [List.length]; congruence. Qed.
+
+  Lemma start_fwd : forall f,
+      (forall ctx ie s g st g',
+          start_stmt orc imm f ctx ie s g = Ok (st, g') ->
+          forall D, DS ie s D -> exists R, RS ie s st R) /\
+      (forall ctx ie ss i g r g',
+          run_block orc imm f ctx ie ss i g = Ok (r, g') ->
+          forall D, DB ie ss i D -> exists R, RO ie ss r R) /\
+      (forall ctx l g sts g',
+          start_list orc imm f ctx l g = Ok (sts, g') ->
+          forall D, DL l D -> exists R, RL l sts R) /\
+      (forall ctx ie s k g st g',
+          loop_test orc imm f ctx ie s k g = Ok (st, g') ->
+          forall D, DLoop ie s k D -> exists R, RS ie s st R).
+  Proof.
+    induction f as [|f IH]; [split; [|split; [|split]]; intros; discriminate|].
+    destruct IH as (IHs & IHb & IHl & IHt).
+    split; [|split; [|split]].
+    - intros ctx ie s g st g' H D HD. cbn [start_stmt] in H.
+      destruct s as [n at_ ins|t at_ ins body|bs|e p fl|e b|v lim b|v lim c].
+      + apply service_conf in H. destruct H as [[-> _]|(id & -> & _)]; eexists; constructor.
+      + mstep as id g1 E1. mstep as u2 g2 E2. mstep as r g3 E3.
+        destruct (DS_call_inv _ _ _ _ _ _ HD) as (Db & HDb & _).
+        destruct (IHb _ _ _ _ _ _ _ E3 _ HDb) as (Rb & HRb).
+        destruct r as [[i sti]|].
+        * mstep. eexists. constructor. exact HRb.
+        * mstep as u4 g4 E4. mstep. eexists. constructor.
+      + mstep as sts g1 E1. apply DS_par_inv in HD.
+        destruct (IHl _ _ _ _ _ E1 _ HD) as (Rl & HRl).
+        destruct (all_done sts); mstep; eexists; constructor. exact HRl.
+      + mstep as bb g1 E1. apply cdecide_of_run in E1. destruct E1 as (C & _).
+        mstep as r g2 E2. destruct (DS_cond_inv _ _ _ _ _ _ HD C) as (Db & HDb & _).
+        destruct (IHb _ _ _ _ _ _ _ E2 _ HDb) as (Rb & HRb).
+        destruct r as [[i sti]|]; mstep; eexists; constructor. exact HRb.
+      + apply DS_while_inv in HD. eapply IHt; eassumption.
+      + apply DS_count_inv in HD. eapply IHt; eassumption.
+      + mstep as n g1 E1. apply climit_of_run in E1. destruct E1 as (evs & _ & C).
+        mstep as sts g2 E2.
+        pose proof (proj1 (proj2 (proj2 (start_wf orc imm f))) _ _ _ _ _ E2) as W.
+        assert (Hlen : List.length sts = Z.to_nat n).
+        { apply Forall2_len in W. unfold insts in W. rewrite map_length, seq_length in W. congruence. }
+        destruct (DS_parloop_inv _ _ _ _ _ _ _ HD C) as (Dl & HDl & _).
+        destruct (IHl _ _ _ _ _ E2 _ HDl) as (Rl & HRl).
+        destruct (all_done sts); mstep; eexists; constructor. rewrite Hlen. exact HRl.
+    - intros ctx ie ss i g r g' H D HD. cbn [run_block] in H.
+      destruct (nth_error ss i) as [s1|] eqn:N.
+      + destruct (DB_inv _ _ _ _ _ N HD) as (D1 & D2 & HD1 & HD2 & _).
+        mstep as st g1 E1. destruct (IHs _ _ _ _ _ _ E1 _ HD1) as (R1 & HR1).
+        destruct (is_done st) eqn:Dn.
+        * eapply IHb; eassumption.
+        * mstep. eexists. cbn [RO]. econstructor; eassumption.
+      + mstep. exists []. reflexivity.
+    - intros ctx l g sts g' H D HD. cbn [start_list] in H.
+      destruct l as [|[ie b] r].
+      + mstep. eexists. constructor.
+      + destruct (DL_inv _ _ _ _ HD) as (D1 & D2 & HD1 & HD2 & _).
+        mstep as st g1 E1. destruct (IHs _ _ _ _ _ _ E1 _ HD1) as (R1 & HR1).
+        mstep as sts1 g2 E2. destruct (IHl _ _ _ _ _ E2 _ HD2) as (R2 & HR2).
+        mstep. eexists. constructor; eassumption.
+    - intros ctx ie s k g st g' H D HD. cbn [loop_test] in H.
+      destruct s as [n at_ ins|t at_ ins body|bs|e p fl|e b|v lim b|v lim c]; try discriminate.
+      + mstep as bb g1 E1. apply cdecide_of_run in E1. destruct E1 as (C & _).
+        destruct bb; [|mstep; eexists; constructor].
+        destruct (DLoop_while_inv _ _ _ _ _ HD C) as (D1 & D2 & HD1 & HD2 & _).
+        mstep as r g2 E2. destruct (IHb _ _ _ _ _ _ _ E2 _ HD1) as (Rb & HRb).
+        destruct r as [[i sti]|].
+        * mstep. eexists. constructor; eassumption.
+        * eapply IHt; eassumption.
+      + mstep as n g1 E1. apply climit_of_run in E1. destruct E1 as (evs & _ & C).
+        destruct (Z.of_nat k <? n)%Z eqn:Hk; [|mstep; eexists; constructor].
+        destruct (DLoop_count_inv _ _ _ _ _ _ _ _ HD C Hk) as (D1 & D2 & HD1 & HD2 & _).
+        mstep as r g2 E2. destruct (IHb _ _ _ _ _ _ _ E2 _ HD1) as (Rb & HRb).
+        destruct r as [[i sti]|].
+        * mstep. eexists. constructor; eassumption.
+        * eapply IHt; eassumption.
+  Qed.
+
+  Lemma deliver_fwd : forall f,
+      (forall ctx ie s st id g st' g',
+          deliver orc imm f ctx ie s st id g = Ok (Some st', g') ->
+          forall R, RS ie s st R -> exists R', RS ie s st' R') /\
+      (forall ctx ie ss i sti id g r g',
+          deliver_block orc imm f ctx ie ss i sti id g = Ok (Some r, g') ->
+          forall R, RB ie ss i sti R -> exists R', RO ie ss r R') /\
+      (forall ctx l sts id g sts' g',
+          deliver_list orc imm f ctx l sts id g = Ok (Some sts', g') ->
+          forall R, RL l sts R -> exists R', RL l sts' R').
+  Proof.
+    induction f as [|f IH]; [split; [|split]; intros; discriminate|].
+    destruct IH as (IHd & IHb & IHl).
+    split; [|split].
+    - intros ctx ie s st id g st' g' H R HR. cbn [deliver] in H.
+      destruct s as [n at_ ins|t at_ ins body|bs|e p fl|e b|v lim b|v lim c];
+        destruct st as [|id'|cid i sti|sts|bb i sti|k i sti|sts];
+        try (mstep; discriminate).
+      + destruct (Nat.eqb id id'); [|mstep; discriminate].
+        mstep as u g1 E1. mstep. subst. eexists. constructor.
+      + inv HR. mstep as r1 g1 E1. destruct r1 as [r1|]; [|mstep; discriminate].
+        match goal with HB : RB _ _ _ _ _ |- _ => destruct (IHb _ _ _ _ _ _ _ _ _ E1 _ HB) as (Rb & HRb) end.
+        destruct r1 as [[j stj]|].
+        * mstep. subst. eexists. constructor. exact HRb.
+        * mstep as u g2 E2. mstep. subst. eexists. constructor.
+      + inv HR. mstep as r1 g1 E1. destruct r1 as [sts'|]; [|mstep; discriminate].
+        match goal with HB : RL _ _ _ |- _ => destruct (IHl _ _ _ _ _ _ _ E1 _ HB) as (Rl & HRl) end.
+        destruct (all_done sts'); mstep; subst; eexists; constructor. exact HRl.
+      + inv HR. mstep as r1 g1 E1. destruct r1 as [r1|]; [|mstep; discriminate].
+        match goal with HB : RB _ _ _ _ _ |- _ => destruct (IHb _ _ _ _ _ _ _ _ _ E1 _ HB) as (Rb & HRb) end.
+        destruct r1 as [[j stj]|]; mstep; subst; eexists; constructor. exact HRb.
+      + inv HR. mstep as r1 g1 E1. destruct r1 as [r1|]; [|mstep; discriminate].
+        match goal with HB : RB _ _ _ _ _ |- _ => destruct (IHb _ _ _ _ _ _ _ _ _ E1 _ HB) as (Rb & HRb) end.
+        destruct r1 as [[j stj]|].
+        * mstep. subst. eexists. constructor; eassumption.
+        * mstep as st2 g2 E2. mstep. subst.
+          match goal with HL : DLoop _ _ _ _ |- _ =>
+            exact (proj2 (proj2 (proj2 (start_fwd f))) _ _ _ _ _ _ _ E2 _ HL) end.
+      + inv HR. mstep as r1 g1 E1. destruct r1 as [r1|]; [|mstep; discriminate].
+        match goal with HB : RB _ _ _ _ _ |- _ => destruct (IHb _ _ _ _ _ _ _ _ _ E1 _ HB) as (Rb & HRb) end.
+        destruct r1 as [[j stj]|].
+        * mstep. subst. eexists. constructor; eassumption.
+        * mstep as st2 g2 E2. mstep. subst.
+          match goal with HL : DLoop _ _ _ _ |- _ =>
+            exact (proj2 (proj2 (proj2 (start_fwd f))) _ _ _ _ _ _ _ E2 _ HL) end.
+      + inv HR. mstep as r1 g1 E1. destruct r1 as [sts'|]; [|mstep; discriminate].
+        match goal with HB : RL _ _ _ |- _ =>
+          pose proof (RL_len _ _ _ HB) as L1; destruct (IHl _ _ _ _ _ _ _ E1 _ HB) as (Rl & HRl) end.
+        pose proof (RL_len _ _ _ HRl) as L2.
+        destruct (all_done sts'); mstep; subst; eexists; constructor.
+        replace (List.length sts') with (List.length sts) by congruence. exact HRl.
+    - intros ctx ie ss i sti id g r g' H R HR. cbn [deliver_block] in H. inv HR.
+      match goal with HN : nth_error _ _ = Some _ |- _ => rewrite HN in H end.
+      mstep as r1 g1 E1. destruct r1 as [st'|]; [|mstep; discriminate].
+      match goal with HB : RS _ _ _ _ |- _ => destruct (IHd _ _ _ _ _ _ _ _ E1 _ HB) as (R1 & HR1) end.
+      destruct (is_done st') eqn:Dn.
+      + mstep as r' g2 E2. mstep. subst.
+        match goal with HB : DB _ _ _ _ |- _ =>
+          exact (proj1 (proj2 (start_fwd f)) _ _ _ _ _ _ _ E2 _ HB) end.
+      + mstep. subst. eexists. cbn [RO]. econstructor; eassumption.
+    - intros ctx l sts id g sts' g' H R HR. cbn [deliver_list] in H.
+      destruct l as [|[ie b] br]; [mstep; discriminate|].
+      destruct sts as [|st sr]; [mstep; discriminate|]. inv HR.
+      mstep as r1 g1 E1. destruct r1 as [st'|].
+      + mstep. subst.
+        match goal with HB : RS _ _ _ _ |- _ => destruct (IHd _ _ _ _ _ _ _ _ E1 _ HB) as (Q1 & HQ1) end.
+        eexists. constructor; eassumption.
+      + mstep as r2 g2 E2. destruct r2 as [sr'|]; [|mstep; discriminate].
+        mstep. subst.
+        match goal with HB : RL _ _ _ |- _ => destruct (IHl _ _ _ _ _ _ _ E2 _ HB) as (Q2 & HQ2) end.
+        eexists. constructor; eassumption.
+  Qed.
+
+  (* ================================================================================ *)
   (* 6. the API: every call emits what leaves the residual of the whole order          *)
   (* ================================================================================ *)
   Variable body : list xstmt.
@@ -1056,6 +1398,85 @@ Section Const.
       destruct (api_conf _ _ _ _ _ HI Hl E _ HR') as (R & HR & HP).
       exists R. split; [exact HR|]. rewrite HP, HP'. apply Permutation_refl.
   Qed.
+
+  (* ---- histories that are not complete: the residual of the state reached ---- *)
+  Lemma api_fwd : forall f s c b s',
+      api_call orc imm f body s c = Ok (b, s') ->
+      forall R, RRoot (sc_root s) R -> exists R', RRoot (sc_root s') R'.
+  Proof.
+    intros f s c b s' H R HR.
+    destruct c as [|id| |k l|o|o]; cbn [api_call] in H.
+    - destruct (sc_root s) as [r0|] eqn:Hroot.
+      + inv H. exists R. exact HR.
+      + match type of H with match ?X with _ => _ end = _ => destruct X as [[st g']| | |] eqn:E end;
+          try discriminate. inv H.
+        cbn [RRoot] in HR. destruct HR as (mid & HD & _).
+        mstep as u1 g1 E1. mstep as id g2 E2. mstep as u3 g3 E3. mstep as r g4 E4.
+        destruct (proj1 (proj2 (start_fwd f)) _ _ _ _ _ _ _ E4 _ HD) as (Rb & HRb).
+        destruct r as [[i sti]|].
+        * mstep. eexists. cbn [sc_root RRoot]. exists Rb. split; [exact HRb|reflexivity].
+        * mstep as u5 g5 E5. mstep. exists []. reflexivity.
+    - change (g_awaited (clear_log (sc_g s))) with (g_awaited (sc_g s)) in H.
+      destruct (mem id (g_awaited (sc_g s))).
+      + destruct (sc_root s) as [[|id'|cid i sti|sts|bb i sti|k i sti|sts]|] eqn:Hroot; try discriminate.
+        match type of H with match ?X with _ => _ end = _ => destruct X as [[st g']| | |] eqn:E end;
+          try discriminate. inv H.
+        cbn [RRoot] in HR. destruct HR as (Rb & HRb & _).
+        mstep as u1 g1 E1. mstep as r g2 E2. destruct r as [r|]; [|discriminate].
+        destruct (proj1 (proj2 (deliver_fwd f)) _ _ _ _ _ _ _ _ _ E2 _ HRb) as (Rb' & HRb').
+        destruct r as [[j st']|].
+        * mstep. eexists. cbn [sc_root RRoot]. exists Rb'. split; [exact HRb'|reflexivity].
+        * mstep as u5 g5 E5. mstep. exists []. reflexivity.
+      + inv H. exists R. exact HR.
+    - inv H. exists R. exact HR.
+    - destruct (existsb _ (g_ls (clear_log (sc_g s)))); inv H; exists R; exact HR.
+    - inv H. exists R. exact HR.
+    - destruct (remove_first (Nat.eqb o) (g_obs (clear_log (sc_g s)))); [|discriminate]. inv H.
+      exists R. exact HR.
+  Qed.
+
+  Lemma script_conf_gen : forall f cs s tr sF,
+      PInv body s -> lst_all (g_ls (sc_g s)) ->
+      run_script orc imm f body s cs = Ok tr ->
+      exec orc imm body f s cs = Ok sF ->
+      forall R', RRoot (sc_root sF) R' ->
+                 exists R, RRoot (sc_root s) R /\ Permutation R (trace_devs tr ++ R').
+  Proof.
+    intros f cs. induction cs as [|c cs IH]; intros s tr sF HI Hl H HX R' HR'; cbn [run_script] in H; cbn [exec] in HX.
+    - inv H. inv HX. exists R'. split; [exact HR'|apply Permutation_refl].
+    - destruct (api_call orc imm f body s c) as [[b s']| | |] eqn:E; try discriminate.
+      cbn [rbind] in H, HX.
+      destruct (run_script orc imm f body s' cs) as [t| | |] eqn:E2; try discriminate.
+      cbn [rbind] in H. inv H.
+      pose proof (api_pinv _ _ _ _ _ _ _ _ HI E) as HI'.
+      assert (Hl' : lst_all (g_ls (sc_g s'))).
+      { rewrite (proj1 (proj2 (api_shape _ _ _ _ _ _ _ _ E))). apply lst_all_next. exact Hl. }
+      destruct (IH _ _ _ HI' Hl' E2 HX _ HR') as (R1 & HR1 & HP1).
+      destruct (api_conf _ _ _ _ _ HI Hl E _ HR1) as (R & HR & HP).
+      exists R. split; [exact HR|]. rewrite HP, HP1. unfold trace_devs. cbn [flat_map].
+      rewrite app_assoc. apply Permutation_refl.
+  Qed.
+
+  Lemma script_fwd : forall f cs s sF,
+      exec orc imm body f s cs = Ok sF ->
+      forall R, RRoot (sc_root s) R -> exists R', RRoot (sc_root sF) R'.
+  Proof.
+    intros f cs. induction cs as [|c cs IH]; intros s sF HX R HR; cbn [exec] in HX.
+    - inv HX. exists R. exact HR.
+    - destruct (api_call orc imm f body s c) as [[b s']| | |] eqn:E; try discriminate.
+      cbn [rbind] in HX. destruct (api_fwd _ _ _ _ _ E _ HR) as (R1 & HR1). eapply IH; eassumption.
+  Qed.
+
+  Lemma run_script_exec : forall f cs s tr,
+      run_script orc imm f body s cs = Ok tr -> exists sF, exec orc imm body f s cs = Ok sF.
+  Proof.
+    intros f cs. induction cs as [|c cs IH]; intros s tr H; cbn [run_script] in H; cbn [exec].
+    - eexists; reflexivity.
+    - destruct (api_call orc imm f body s c) as [[b s']| | |] eqn:E; try discriminate.
+      cbn [rbind] in H |- *.
+      destruct (run_script orc imm f body s' cs) as [t| | |] eqn:E2; try discriminate.
+      eapply IH; eassumption.
+  Qed.
   End Run.
 End Const.
 
@@ -1176,6 +1597,50 @@ Corollary confluence_count_occ : forall (dec : forall a b : dev, {a = b} + {a <>
     count_occ dec (DN TS production_task root_site [] :: mid ++ [DN TF production_task root_site []]) e.
 Proof. intros. apply Permutation_count_occ. eapply confluence_any_fuel; eassumption. Qed.
 
+(* ---- histories that are not complete ---- *)
+(* whenever the denotation of the body exists (some fuel suffices), at every point of every
+   history: what was emitted so far, plus the residual of the state reached, is a permutation
+   of "started, denotation, finished" *)
+Theorem confluence_prefix : forall orc imm f body cs tr F mid q',
+    counter_free orc ->
+    run_script orc imm f body sched0 cs = Ok tr ->
+    den_block orc F [] body 0 0 = Ok (mid, q') ->
+    exists sF rest,
+      exec orc imm body f sched0 cs = Ok sF /\
+      RRoot orc body (sc_root sF) rest /\
+      Permutation (DN TS production_task root_site [] :: mid ++ [DN TF production_task root_site []])
+                  (trace_devs tr ++ rest).
+Proof.
+  intros orc imm f body cs tr F mid q' Hc H HD.
+  destruct (run_script_exec orc imm body f cs sched0 tr H) as (sF & HX).
+  assert (HR0 : RRoot orc body (sc_root sched0)
+                      (DN TS production_task root_site [] :: mid ++ [DN TF production_task root_site []])).
+  { cbn [sc_root sched0 RRoot]. exists mid. split; [eapply DB_of_den; eassumption|reflexivity]. }
+  destruct (script_fwd orc Hc imm body f cs sched0 sF HX _ HR0) as (rest & Hrest).
+  destruct (script_conf_gen orc Hc imm body f cs sched0 tr sF (PInv_sched0 body) lst_all_default H HX _ Hrest)
+    as (R & HR & HP).
+  exists sF, rest. split; [exact HX|]. split; [exact Hrest|].
+  cbn [sc_root sched0 RRoot] in HR. destruct HR as (mid0 & HD0 & ->).
+  rewrite (DB_fun orc _ _ _ _ _ HD0 (DB_of_den orc Hc _ _ _ _ _ _ _ HD)) in HP. exact HP.
+Qed.
+
+Lemma filter_length_app_le : forall A (p : A -> bool) l1 l2,
+    List.length (filter p l1) <= List.length (filter p (l1 ++ l2)).
+Proof. intros. rewrite filter_app, app_length. lia. Qed.
+
+(* safety: at no point of any history has an event occurred more often than in the denotation *)
+Corollary confluence_prefix_count : forall orc imm f body cs tr F mid q' (p : dev -> bool),
+    counter_free orc ->
+    run_script orc imm f body sched0 cs = Ok tr ->
+    den_block orc F [] body 0 0 = Ok (mid, q') ->
+    List.length (filter p (trace_devs tr)) <=
+    List.length (filter p (DN TS production_task root_site [] :: mid ++ [DN TF production_task root_site []])).
+Proof.
+  intros orc imm f body cs tr F mid q' p Hc H HD.
+  destruct (confluence_prefix _ _ _ _ _ _ _ _ _ Hc H HD) as (sF & rest & _ & _ & HP).
+  rewrite (perm_filter_length _ p _ _ HP). apply filter_length_app_le.
+Qed.
+
 (* ================================================================================== *)
 (* 8. C05: a counting loop with a literal limit, under every schedule                  *)
 (* ================================================================================== *)
@@ -1270,6 +1735,52 @@ Proof.
     - intros k Hlt. destruct (HL (S k)) as (Fk & qa & qb & E); [cbn; lia|].
       exists Fk, qa, qb. cbn [nth] in E. replace (S m + k) with (m + S k) by lia. exact E. }
   rewrite (G Ds 0); [exact Hlen|]. intros k Hlt. rewrite Hlen in Hlt. exact (Hk k Hlt).
+Qed.
+
+(* the same order, any history (complete or not): never more than N starts *)
+Lemma den_single_service_block : forall orc x ie n a ins q,
+    den_block orc (S (S (S x))) ie [XService n a ins] 0 q =
+    Ok ([DN SS n a (subst_params ie ins); DN SF n a (subst_params ie ins)], q).
+Proof.
+  intros. rewrite den_block_S. cbn [nth_error]. rewrite den_stmt_S. cbn [rbind].
+  rewrite den_block_S. cbn [nth_error rbind app]. reflexivity.
+Qed.
+
+Lemma den_single_service_loop : forall orc ie v N n a ins m k q,
+    N - k = m ->
+    den_loop orc (m + 4) ie (XCount v (LimInt N) [XService n a ins]) k q =
+    Ok (flat_map (fun j => [DN SS n a (subst_params ((v, j) :: ie) ins);
+                            DN SF n a (subst_params ((v, j) :: ie) ins)]) (seq k m), q).
+Proof.
+  intros orc ie v N n a ins m. induction m as [|m IH]; intros k q Hm.
+  - cbn [Nat.add]. rewrite den_loop_S. cbn [den_limit rbind].
+    replace (Z.of_nat k <? Z.of_nat N)%Z with false by (symmetry; apply Z.ltb_ge; lia). reflexivity.
+  - replace (S m + 4) with (S (m + 4)) by lia. rewrite den_loop_S. cbn [den_limit rbind].
+    replace (Z.of_nat k <? Z.of_nat N)%Z with true by (symmetry; apply Z.ltb_lt; lia).
+    replace (m + 4) with (S (S (S (S m)))) at 1 by lia. rewrite den_single_service_block. cbn [rbind].
+    rewrite (IH (S k) q) by lia. cbn [rbind seq flat_map app]. reflexivity.
+Qed.
+
+Theorem C05_service_in_literal_loop_at_most : forall orc imm f cs tr v N n a ins,
+    counter_free orc ->
+    run_script orc imm f [XCount v (LimInt N) [XService n a ins]] sched0 cs = Ok tr ->
+    List.length (filter (is_start_of n a) (trace_devs tr)) <= N.
+Proof.
+  intros orc imm f cs tr v N n a ins Hc H.
+  set (Dk := fun j => [DN SS n a (subst_params [(v, j)] ins); DN SF n a (subst_params [(v, j)] ins)]).
+  assert (HD : den_block orc (S (S (N + 4))) [] [XCount v (LimInt N) [XService n a ins]] 0 0 =
+               Ok (flat_map Dk (seq 0 N) ++ [], 0)).
+  { rewrite den_block_S. cbn [nth_error]. rewrite den_stmt_S.
+    rewrite (den_single_service_loop orc [] v N n a ins N 0 0) by lia. cbn [rbind].
+    rewrite den_block_S. cbn [nth_error rbind]. reflexivity. }
+  pose proof (confluence_prefix_count _ _ _ _ _ _ _ _ _ (is_start_of n a) Hc H HD) as HL.
+  eapply Nat.le_trans; [exact HL|].
+  cbn [filter is_start_of]. rewrite !filter_app. cbn [filter is_start_of]. rewrite !app_nil_r.
+  assert (G : forall k m, List.length (filter (is_start_of n a) (flat_map Dk (seq k m))) = m).
+  { intros k m. revert k. induction m as [|m IHm]; intro k; [reflexivity|].
+    cbn [seq flat_map]. rewrite filter_app, app_length, IHm. unfold Dk. cbn [filter is_start_of].
+    rewrite Nat.eqb_refl, site_eqb_refl. reflexivity. }
+  rewrite G. apply Nat.le_refl.
 Qed.
 
 (* ================================================================================== *)
@@ -1435,3 +1946,66 @@ Corollary confluence_count_occ_dev : forall orc imm f body cs tr F mid q' (e : d
     count_occ dev_eq_dec (trace_devs tr) e =
     count_occ dev_eq_dec (DN TS production_task root_site [] :: mid ++ [DN TF production_task root_site []]) e.
 Proof. intros. eapply confluence_count_occ; eassumption. Qed.
+
+(* ================================================================================== *)
+(* 13. the termination caveat, as a theorem: an order whose body contains (at top      *)
+(*     level) a while loop whose guard is true under the valuation never completes     *)
+(* ================================================================================== *)
+Lemma den_while_true_diverges : forall orc F ie e b k q r,
+    cdecide orc e true -> den_loop orc F ie (XWhile e b) k q <> Ok r.
+Proof.
+  intros orc F. induction F as [|F IH]; intros ie e b k q r C H; [discriminate|].
+  rewrite den_loop_S in H. destruct (C q) as (q1 & E0). rewrite E0 in H. cbn [rbind] in H.
+  destruct (den_block orc F ie b 0 q1) as [[e1 q2]| | |]; cbn [rbind] in H; try discriminate.
+  destruct (den_loop orc F ie (XWhile e b) (S k) q2) as [[e2 q3]| | |] eqn:E2; cbn [rbind] in H; try discriminate.
+  exact (IH _ _ _ _ _ _ C E2).
+Qed.
+
+Lemma den_block_needs_all : forall orc F ie ss i s j q r,
+    den_block orc F ie ss j q = Ok r -> j <= i -> nth_error ss i = Some s ->
+    exists q1 r1, den_stmt orc F ie s q1 = Ok r1.
+Proof.
+  intros orc F. induction F as [|F IH]; intros ie ss i s j q r H Hle N; [discriminate|].
+  rewrite den_block_S in H.
+  destruct (nth_error ss j) as [sj|] eqn:Nj.
+  - destruct (den_stmt orc F ie sj q) as [[e1 q1]| | |] eqn:E1; cbn [rbind] in H; try discriminate.
+    destruct (den_block orc F ie ss (S j) q1) as [[e2 q2]| | |] eqn:E2; cbn [rbind] in H; try discriminate.
+    destruct (Nat.eq_dec j i) as [->|Hne].
+    + rewrite N in Nj. inv Nj. exists q, (e1, q1). apply (proj1 (den_mono orc F)). exact E1.
+    + assert (Hle' : S j <= i) by lia.
+      destruct (IH _ _ _ _ _ _ _ E2 Hle' N) as (qa & ra & Ea).
+      exists qa, ra. apply (proj1 (den_mono orc F)). exact Ea.
+  - exfalso. apply nth_error_None in Nj. assert (Hi : i < List.length ss) by (apply nth_error_Some; congruence). lia.
+Qed.
+
+Theorem while_true_never_completes : forall orc imm f body cs tr i e b,
+    counter_free orc ->
+    nth_error body i = Some (XWhile e b) -> cdecide orc e true ->
+    run_script orc imm f body sched0 cs = Ok tr ->
+    forall r, In r tr -> cr_final r = false.
+Proof.
+  intros orc imm f body cs tr i e b Hc N C H r Hin.
+  destruct (cr_final r) eqn:Hf; [|reflexivity]. exfalso.
+  destruct (confluence _ _ _ _ _ _ Hc H (ex_intro _ r (conj Hin Hf))) as (F & mid & q' & HD & _).
+  destruct (den_block_needs_all _ _ _ _ _ _ _ _ _ HD (Nat.le_0_l i) N) as (q1 & r1 & E).
+  destruct F as [|F]; [discriminate|]. rewrite den_stmt_S in E.
+  exact (den_while_true_diverges _ _ _ _ _ _ _ _ C E).
+Qed.
+
+Lemma cdecide_of_decide : forall orc e q b q',
+    counter_free orc -> decide expected_ops orc e q = Ok (b, q') -> cdecide orc e b.
+Proof.
+  intros orc e q b q' Hc E q2. unfold den_decide.
+  destruct (decide_const orc Hc _ _ _ _ _ E q2) as (k & E'). rewrite E'. eexists; reflexivity.
+Qed.
+
+Corollary while_true_never_completes_decide : forall orc imm f body cs tr i e b q0,
+    counter_free orc ->
+    nth_error body i = Some (XWhile e b) ->
+    decide expected_ops orc e 0 = Ok (true, q0) ->
+    run_script orc imm f body sched0 cs = Ok tr ->
+    forall r, In r tr -> cr_final r = false.
+Proof.
+  intros orc imm f body cs tr i e b q0 Hc N E. eapply while_true_never_completes; [exact Hc|exact N|].
+  eapply cdecide_of_decide; eassumption.
+Qed.
